@@ -118,13 +118,18 @@ def PostVar.column (v : PostVar α) (i : Nat) : List (Option α) :=
 
 /-- `posterior[:, param_id] = …`: every column must have `n_chains * n_draws` entries
     (`ValueError` otherwise); the result is the list of columns -/
-def posteriorColumns (vars : List (PostVar α)) (i : Nat) : Option (List (List (Option α))) :=
+def posteriorColumnsLegacy (vars : List (PostVar α)) (i : Nat) : Option (List (List (Option α))) :=
   let nRows := (vars.headD ⟨false, false, []⟩).nChains * (keptAll vars i).length
   if vars.all (fun v => (v.column i).length == nRows) then some (vars.map (fun v => v.column i)) else none
 
-/-- repaired selection: `.transpose('chain', 'draw', ...)` before `.values.flatten()` — every variable
-    is laid out chain-major whatever its own dimension order -/
+/-- `.transpose('chain', 'draw', ...)`: the variable with its dimensions in the order (chain, draw, …) -/
 def PostVar.canonical (v : PostVar α) : PostVar α := { v with drawMajor := false }
+
+/-- the code as it is (b371b27): every variable is transposed to (chain, draw, …) before
+    `.values.flatten()`; `posteriorColumnsLegacy` is the pre-fix code, which flattened every variable in
+    its own dimension order -/
+def posteriorColumns (vars : List (PostVar α)) (i : Nat) : Option (List (List (Option α))) :=
+  posteriorColumnsLegacy (vars.map PostVar.canonical) i
 
 /-- `rng.choice(posterior)`: row `idx` of the matrix -/
 def posteriorRow (cols : List (List (Option α))) (idx : Nat) : List (Option α) :=
@@ -205,10 +210,22 @@ def doseRows (nDoses n : Nat) : List (Nat × Nat) :=
     rows of `eta` -/
 def pooledIndividuals (theta : List α) (eta : List (List α)) : List (List α) := eta.map (fun _ => theta)
 
-/-- `HeterogeneousModel.compute_individual_parameters`: as it is, the stored `(n_ids, n_dim)`
-    parameters whatever was drawn; intended, the drawn rows -/
+/-- `HeterogeneousModel.compute_individual_parameters`: pre-fix (`legacy`) the stored `(n_ids, n_dim)`
+    parameters whatever was drawn; as it is (7e1e7bd) `eta` when it holds a number of individuals
+    other than `n_ids`, the stored parameters otherwise (the hierarchical likelihood passes dummies) -/
 def heteroIndividuals (legacy : Bool) (stored : List (List α)) (eta : List (List α)) : List (List α) :=
-  if legacy then stored else eta
+  if legacy then stored else if eta.length ≠ stored.length then eta else stored
+
+/-- what `PopulationPredictiveModel.sample` uses in a heterogeneous dimension: pre-fix the result of
+    `compute_individual_parameters`; as it is the drawn individuals
+    (`patients[:, start:end] = eta[:, start:end]`) -/
+def popPredHetero (legacy : Bool) (stored : List (List α)) (eta : List (List α)) : List (List α) :=
+  if legacy then heteroIndividuals true stored eta else eta
+
+/-- `ComposedPopulationModel.compute_individual_parameters` writes the sub-model's result into an
+    array with one row per drawn individual: a broadcast `ValueError` when the row counts differ -/
+def composedAccepts (legacy : Bool) (stored : List (List α)) (eta : List (List α)) : Bool :=
+  (heteroIndividuals legacy stored eta).length == eta.length
 
 /-- the loop of `PopulationPredictiveModel.sample` over the patients of a *bare* heterogeneous model:
     `measurements[..., patient_id] = …` into a container with `n` columns created by `np.empty`:
